@@ -100,7 +100,10 @@ theorem trade_fields_as_stated (p : Pair) (hk : p.kind = .publicTrades) (k : Nat
   have key : ∀ it : Item, tradeView ⟨k, p.exch, it.time, tradeOf p.exch it⟩ = some (specTrade p.exch it) := by
     intro it
     have habs : absR (absR it.amount) = absR it.amount := by
-      unfold absR; split <;> split <;> grind
+      by_cases h : it.amount < 0
+      · have h2 : ¬ (-it.amount < 0) := by grind
+        simp [absR, h, h2]
+      · simp [absR, h]
     cases he : p.exch <;>
       simp [tradeView, tradeOf, specTrade, Exch.signEncodesSide, signSide, habs]
   unfold events
@@ -212,5 +215,152 @@ theorem refines_spec (p : Pair) (hp : p ∈ supported) (hb : p.exch ≠ .bitfine
     refine ⟨_, rejected p hp hb subs msg (hc ▸ venueChannel_no_bar p) ?_ hne⟩
     intro i hi ⟨h1, _⟩
     exact hmem (List.mem_map.mpr ⟨i, hi, by rw [← market_eq_venueSymbol, h1]⟩)
+
+/-! ## Bitfinex: messages name the numeric channel id the venue confirmed
+
+`confs` are the venue's `subscribed` confirmations `(symbol, chanId)` in arrival order; a
+well-behaved venue confirms every symbol at most once and under pairwise distinct channel ids
+(`Nodup` hypotheses). `bitfinexConfirm` is the validator's re-keying loop. -/
+
+def bitfinex : Pair := ⟨.bitfinex, .publicTrades⟩
+
+/-- A trade on the channel id confirmed for the `k`-th instrument's symbol is attributed to `k`. -/
+theorem bitfinex_attributed (subs : List Inst)
+    (hd : (subs.map (subscriptionId bitfinex)).Nodup) (confs : List (Str × Nat))
+    (hs : (confs.map (·.1)).Nodup) (hc : (confs.map (·.2)).Nodup)
+    (k : Nat) (i : Inst) (hk : subs[k]? = some i) (c : Nat)
+    (hconf : (market .bitfinex i, c) ∈ confs)
+    (msg : Msg) (hid : msg.chanId = c) (it : Item) (hi : msg.items = [it]) :
+    transform bitfinex (bitfinexConfirm (mapOf bitfinex subs) confs) msg
+      = .events (events bitfinex k msg) := by
+  have h0 : (mapOf bitfinex subs).find (subId "trades".toList (market .bitfinex i)) = some k :=
+    find_mapOf bitfinex subs hd k i hk
+  have := find_confirm_attributed _ confs hs hc _ c k hconf h0
+  simp [transform, payloadId, bitfinex, hi, hid] at this ⊢
+  simp [this]
+
+/-- A trade on a channel id the venue never confirmed, or confirmed for a symbol that was not
+subscribed, yields the unidentifiable error — never an event. -/
+theorem bitfinex_rejected (subs : List Inst) (confs : List (Str × Nat))
+    (hc : (confs.map (·.2)).Nodup) (c : Nat)
+    (hcase : c ∉ confs.map (·.2) ∨
+      ∃ sym, (sym, c) ∈ confs ∧ sym ∉ subs.map (market .bitfinex))
+    (msg : Msg) (hid : msg.chanId = c) (it : Item) (hi : msg.items = [it]) :
+    transform bitfinex (bitfinexConfirm (mapOf bitfinex subs) confs) msg
+      = .unidentifiable (Nat.toDigits 10 c) := by
+  have hdig : (mapOf bitfinex subs).find (Nat.toDigits 10 c) = none := by
+    apply find_mapOf_none
+    intro hmem
+    obtain ⟨i, _, heq⟩ := List.mem_map.mp hmem
+    exact digits_ne_subId c _ _ heq.symm
+  have hnone : (bitfinexConfirm (mapOf bitfinex subs) confs).find (Nat.toDigits 10 c) = none := by
+    rcases hcase with hnot | ⟨sym, hmem, hsym⟩
+    · rw [find_digits_confirm _ _ _ hnot]; exact hdig
+    · apply find_confirm_rejected _ confs hc sym c hmem _ hdig
+      apply find_mapOf_none
+      intro hmem'
+      obtain ⟨i, hi', heq⟩ := List.mem_map.mp hmem'
+      apply hsym
+      have : market .bitfinex i = sym := subId_injective _ _ _ heq
+      exact List.mem_map.mpr ⟨i, hi', this⟩
+  simp only [bitfinex] at hnone
+  simp [transform, payloadId, bitfinex, hi, hid, hnone]
+
+/-- Heartbeats (no trade) yield nothing. -/
+theorem bitfinex_heartbeat (m : IMap) (msg : Msg) (hi : msg.items = []) :
+    transform bitfinex m msg = .events [] := by
+  simp [transform, payloadId, bitfinex, hi]
+
+/-- Refinement to the venue specification for Bitfinex (what the `spec` driver runs): the message's
+channel id stands for the symbol the venue confirmed under it (`bitfinexSymbolOf`), and the
+attribution rule is applied to that symbol. -/
+theorem bitfinex_refines_spec (subs : List Inst)
+    (hsp : ∀ i ∈ subs, supports bitfinex i.kind = true)
+    (hd : (subs.map (venueSymbol .bitfinex)).Nodup) (confs : List (Str × Nat))
+    (hs : (confs.map (·.1)).Nodup) (hc : (confs.map (·.2)).Nodup)
+    (msg : Msg) (it : Item) (hi : msg.items = [it]) :
+    let out := transform bitfinex (bitfinexConfirm (mapOf bitfinex subs) confs) msg
+    match bitfinexSymbolOf confs msg.chanId with
+    | none => ∃ id, out = .unidentifiable id
+    | some sym =>
+      match specVerdict .bitfinex subs sym with
+      | .attributed k => out = .events (events bitfinex k msg)
+      | .rejected => ∃ id, out = .unidentifiable id
+      | .ambiguous => False := by
+  intro out
+  have hids := ids_nodup_of_symbols bitfinex subs (by decide) hsp hd
+  cases hsym : bitfinexSymbolOf confs msg.chanId with
+  | none =>
+    refine ⟨_, bitfinex_rejected subs confs hc msg.chanId (Or.inl ?_) msg rfl it hi⟩
+    intro hmem
+    obtain ⟨x, hx, hx2⟩ := List.mem_map.mp hmem
+    simp only [bitfinexSymbolOf, Option.map_eq_none_iff, List.find?_eq_none] at hsym
+    exact absurd (hsym x (List.mem_reverse.mpr hx)) (by simp [hx2])
+  | some sym =>
+    simp only [bitfinexSymbolOf, Option.map_eq_some_iff] at hsym
+    obtain ⟨x, hfind, hx1⟩ := hsym
+    have hx2 : x.2 = msg.chanId := by simpa using List.find?_some hfind
+    have hmem : (sym, msg.chanId) ∈ confs := by
+      have := List.mem_reverse.mp (List.mem_of_find?_eq_some hfind)
+      rw [← hx1, ← hx2]; exact this
+    by_cases hin : sym ∈ subs.map (venueSymbol .bitfinex)
+    · obtain ⟨i, hi', hsy⟩ := List.mem_map.mp hin
+      obtain ⟨k, hk⟩ := List.getElem?_of_mem hi'
+      simp only [specVerdict, holders, holdersFrom_unique .bitfinex 0 subs sym hd k i hk hsy, Nat.zero_add]
+      exact bitfinex_attributed subs hids confs hs hc k i hk msg.chanId
+        (by rw [market_eq_venueSymbol, hsy]; exact hmem) msg rfl it hi
+    · simp only [specVerdict, holders, holdersFrom_none .bitfinex 0 subs sym hin]
+      refine ⟨_, bitfinex_rejected subs confs hc msg.chanId (Or.inr ⟨sym, hmem, ?_⟩) msg rfl it hi⟩
+      intro h
+      apply hin
+      obtain ⟨i, hi', hsy⟩ := List.mem_map.mp h
+      exact List.mem_map.mpr ⟨i, hi', by rw [← market_eq_venueSymbol, hsy]⟩
+
+/-! ## Non-vacuity: the hypotheses are satisfiable by non-trivial values -/
+
+/-- mixed-case names, digits, a shared prefix (`bt`/`btc`), three Okx kinds incl. an expiry whose ISO
+week-year differs from its calendar year -/
+def exSubs : List Inst :=
+  [⟨"Btc".toList, "USDt".toList, .spot⟩, ⟨"bt".toList, "usd".toList, .perpetual⟩,
+   ⟨"1inch".toList, "usd".toList, .future ⟨2027, 1, 1⟩⟩,
+   ⟨"eth".toList, "usd".toList, .option ⟨2024, 12, 30⟩ 50000 true⟩]
+
+def okxTrades : Pair := ⟨.okx, .publicTrades⟩
+
+example : okxTrades ∈ supported := by decide
+example : ∀ i ∈ exSubs, supports okxTrades i.kind = true := by decide
+example : (exSubs.map (venueSymbol .okx)).Nodup := by decide
+example : (exSubs.map (subscriptionId okxTrades)).Nodup := by decide
+example : venueSymbol .okx exSubs[2] = "1INCH-USD-270101".toList := by decide
+example : market .okx exSubs[3] = "ETH-USD-241230-50000-C".toList := by decide
+
+/-- `attributed` / `refines_spec` fire on a concrete message: two trades for the dated future -/
+example :
+    (match transform okxTrades (mapOf okxTrades exSubs)
+        ⟨"trades".toList, "1INCH-USD-270101".toList, 0, [⟨1, 2, .buy, 5⟩, ⟨3, 4, .sell, 6⟩]⟩ with
+      | .events evs => evs.map fun ev => (ev.key, ev.exch, ev.time)
+      | .unidentifiable _ => []) = [(2, .okx, 5), (2, .okx, 6)] := by
+  decide
+
+example : specVerdict .okx exSubs "1INCH-USD-270101".toList = .attributed 2 := by decide
+example : specVerdict .okx exSubs "BT-USD".toList = .rejected := by decide
+/-- the similar-prefix market is a different instrument -/
+example : specVerdict .okx exSubs "BT-USD-SWAP".toList = .attributed 1 := by decide
+
+/-- Bitfinex hypotheses: two instruments, confirmations in reverse order, one unsubscribed symbol -/
+def exBfx : List Inst := [⟨"btc".toList, "usd".toList, .spot⟩, ⟨"ETH".toList, "usd".toList, .spot⟩]
+def exConfs : List (Str × Nat) :=
+  [("tETHUSD".toList, 7), ("tBTCUSD".toList, 12), ("tXRPUSD".toList, 3)]
+
+example : (exBfx.map (subscriptionId bitfinex)).Nodup := by decide
+example : (exConfs.map (·.1)).Nodup ∧ (exConfs.map (·.2)).Nodup := by decide
+example : (market .bitfinex exBfx[1], 7) ∈ exConfs := by decide
+example : "tXRPUSD".toList ∉ exBfx.map (market .bitfinex) := by decide
+example :
+    (match transform bitfinex (bitfinexConfirm (mapOf bitfinex exBfx) exConfs)
+        ⟨[], [], 7, [⟨100, -2, .buy, 5⟩]⟩ with
+      | .events evs => evs.map fun ev => (ev.key, ev.exch, ev.time)
+      | .unidentifiable _ => []) = [(1, .bitfinex, 5)] := by
+  decide
 
 end BarterModel.Props.C13
